@@ -22,7 +22,7 @@ import (
 // status. Real workflow on the in-memory adapters; the run is held back by a callback so that the harness decides when
 // it advances, pauses, resumes, is cancelled, or when another run of the same foreign ID produces events.
 //
-// Workflow: 1 --callback--> 2 --callback--> 3 (terminal).
+// Workflow: 1 --callback--> 2 --callback--> 3 (terminal) or 4 (terminal).
 
 type awaitCase struct {
 	Awaited int      `json:"awaited_status"`
@@ -32,7 +32,13 @@ type awaitCase struct {
 func newAwaitWF() (*workflow.Workflow[Obj, Status], *memrecordstore.Store, func()) {
 	b := workflow.NewBuilder[Obj, Status]("await wf")
 	b.AddCallback(1, func(ctx context.Context, r *workflow.Run[Obj, Status], _ io.Reader) (Status, error) { return 2, nil }, 2)
-	b.AddCallback(2, func(ctx context.Context, r *workflow.Run[Obj, Status], _ io.Reader) (Status, error) { return 3, nil }, 3)
+	// two terminal statuses: from 2 the run completes at 3, or - payload "alt" - at 4
+	b.AddCallback(2, func(ctx context.Context, r *workflow.Run[Obj, Status], p io.Reader) (Status, error) {
+		if b, _ := io.ReadAll(p); strings.Contains(string(b), "alt") {
+			return 4, nil
+		}
+		return 3, nil
+	}, 3, 4)
 	st := memrecordstore.New()
 	w := b.Build(memstreamer.New(), st, memrolescheduler.New(), workflow.WithTimeoutStore(memtimeoutstore.New()), workflow.WithLogger(nopLogger{}),
 		workflow.WithDefaultOptions(workflow.PollingFrequency(time.Millisecond), workflow.ErrBackOff(time.Millisecond)),
@@ -118,10 +124,14 @@ func runAwaitCase(c awaitCase) []string {
 			if x := ctl(runID); x != nil {
 				_ = x.Cancel(ctx, "await")
 			}
-		case "advance":
+		case "advance", "advance-alt":
 			cur, err := st.Lookup(ctx, runID)
 			if err == nil && !cur.RunState.Stopped() && !cur.RunState.Finished() {
-				_ = w.Callback(ctx, fid, Status(cur.Status), strings.NewReader("{}"))
+				payload := "{}"
+				if step == "advance-alt" {
+					payload = `{"alt":true}`
+				}
+				_ = w.Callback(ctx, fid, Status(cur.Status), strings.NewReader(payload))
 				if now, err := st.Lookup(ctx, runID); err == nil && now.Status == c.Awaited {
 					reached = true
 				}
@@ -137,10 +147,18 @@ func runAwaitCase(c awaitCase) []string {
 		}
 	}
 	// end of script: if the run reached the awaited status the caller must have been released
+	wait := 5 * time.Second // generous: the relay and the receiver poll every millisecond, but the machine may be busy
+	if !reached {
+		wait = 300 * time.Millisecond // the caller must keep waiting: a late release is looked for a little longer
+	}
 	select {
 	case res := <-done:
-		_ = res
-	case <-time.After(5 * time.Second): // generous: the relay and the receiver poll every millisecond, but the machine may be busy
+		if !reached && res.err == nil {
+			cur, _ := st.Lookup(ctx, runID)
+			problems = append(problems, fmt.Sprintf("await-released-before-status-reached: after the script Await(status %d) returned the run at status %d, run state %s; the run has never been at status %d (now: status %d, %s)",
+				c.Awaited, res.run.Status, res.run.RunState, c.Awaited, cur.Status, cur.RunState))
+		}
+	case <-time.After(wait):
 		if reached {
 			problems = append(problems, fmt.Sprintf("await-not-released: the run reached status %d but Await has not returned", c.Awaited))
 		}
@@ -158,7 +176,7 @@ func short(id string) string {
 
 // AwaitSuite: scripted and random scenarios around an Await call.
 func AwaitSuite(d *leandrv.Driver, r *rng.R, res *report.Result, thorough bool) error {
-	res.Rule = "real workflow 1 -callback-> 2 -callback-> 3(terminal) on the in-memory adapters; an older finished run of the same foreign ID exists; Await(run, status 2 | 3) is started, then a script of pause / resume / cancel / advance / " +
+	res.Rule = "real workflow 1 -callback-> 2 -callback-> 3(terminal) | 4(terminal) on the in-memory adapters; an older finished run of the same foreign ID exists; Await(run, status 2 | 3 | 4) is started, then a script of pause / resume / cancel / advance / advance to the other terminal status / " +
 		"data deletion of the OLDER run is played with pauses for the relay; Await may return only after the awaited run has been at the awaited status, and must return the awaited run; fixed scripts first, random scripts after"
 	fixed := []awaitCase{
 		{3, []string{"pause", "resume", "advance", "advance"}},
@@ -167,18 +185,21 @@ func AwaitSuite(d *leandrv.Driver, r *rng.R, res *report.Result, thorough bool) 
 		{3, []string{"pause", "cancel"}},
 		{2, []string{"pause", "resume", "advance"}},
 		{2, []string{"old-run-delete", "advance"}},
+		{3, []string{"advance", "advance-alt"}}, // completes at the OTHER terminal status: the caller keeps waiting
+		{4, []string{"advance", "advance"}},
+		{4, []string{"advance", "pause", "resume", "advance-alt"}},
 	}
 	n := 6
 	if thorough {
 		n = 60
 	}
-	steps := []string{"pause", "resume", "advance", "advance", "old-run-delete", "cancel"}
+	steps := []string{"pause", "resume", "advance", "advance", "advance-alt", "old-run-delete", "cancel"}
 	for it := 0; it < len(fixed)+n; it++ {
 		var c awaitCase
 		if it < len(fixed) {
 			c = fixed[it]
 		} else {
-			c = awaitCase{Awaited: 2 + r.Intn(2)}
+			c = awaitCase{Awaited: 2 + r.Intn(3)}
 			for i, k := 0, 2+r.Intn(4); i < k; i++ {
 				c.Script = append(c.Script, rng.Pick(r, steps))
 			}
